@@ -12,6 +12,9 @@ NCPU = os.cpu_count() or 4
 GOENV = dict(os.environ, GOFLAGS="-mod=mod", GOPROXY="off")
 GOENV.pop("GOTOOLCHAIN", None)  # GOTOOLCHAIN=local breaks the build here (go.mod needs 1.24.1, auto-switch is offline-safe)
 GOENV.pop("GOSUMDB", None)
+if os.environ.get("VERIF_DEV_COVERDIR"):
+    os.makedirs(os.environ["VERIF_DEV_COVERDIR"], exist_ok=True)
+    GOENV["GOCOVERDIR"] = os.environ["VERIF_DEV_COVERDIR"]
 
 
 class Inconclusive(Exception):
@@ -126,6 +129,8 @@ def go_build(wd, race=False, tags="verif", name="verif"):
     cmd = ["go", "build", "-tags", tags]
     if race:
         cmd.append("-race")
+    if os.environ.get("VERIF_DEV_COVERDIR"):   # development aid only (which library lines do the checks reach?): GOCOVERDIR is then set too
+        cmd += ["-cover", "-coverpkg=github.com/zitadel/oidc/v3/pkg/..."]
     cmd += ["-o", binp, "./cmd/verif"]
     p = subprocess.run(cmd, cwd=hdir, env=GOENV, stdout=subprocess.PIPE, stderr=subprocess.STDOUT, text=True, timeout=900)
     if p.returncode != 0:
